@@ -349,6 +349,50 @@ func checkC16(res *Result) {
 		for _, c := range ts {
 			a := c.Common().Args
 			okObj := anyBackward(g, a[0], func(x ssa.Value) bool { return isCallNamed(x, "Database.Get") })
+			// … and from nowhere else: every value that can arrive at the argument (through merges)
+			// is the result of Database.Get — the object as the client embedded it in the Delete
+			// carries whatever published / updated / type the client chose
+			var leaves []ssa.Value
+			var expand func(v ssa.Value, d int)
+			seenL := map[ssa.Value]bool{}
+			expand = func(v ssa.Value, d int) {
+				v = unwrap(v)
+				if seenL[v] || d > 8 {
+					return
+				}
+				seenL[v] = true
+				switch x := v.(type) {
+				case *ssa.Phi:
+					for _, e := range x.Edges {
+						expand(e, d+1)
+					}
+				case *ssa.UnOp:
+					if al, ok := x.X.(*ssa.Alloc); ok && x.Op == token.MUL {
+						for _, ref := range *al.Referrers() {
+							if st, ok := ref.(*ssa.Store); ok && st.Addr == ssa.Value(al) {
+								expand(st.Val, d+1)
+							}
+						}
+						return
+					}
+					leaves = append(leaves, v)
+				default:
+					leaves = append(leaves, v)
+				}
+			}
+			expand(a[0], 0)
+			for _, lf := range leaves {
+				src := lf
+				if ex, ok := lf.(*ssa.Extract); ok {
+					src = ex.Tuple
+				}
+				if c, isC := lf.(*ssa.Const); isC && c.IsNil() {
+					continue // the zero value before the assignment
+				}
+				if !isCallNamed(src, "Database.Get") {
+					okObj = false
+				}
+			}
 			okID := isURLParam(a[1])
 			okNow := isCallNamed(a[2], "Clock.Now")
 			res.check(okObj && okID && okNow, "C16-R3", fname(fn), p.pos(c), "toTombstone(stored object, its id, clock.Now())", fmt.Sprintf("object from Database.Get: %v; id is the object's id: %v; time from the clock: %v", okObj, okID, okNow))
